@@ -20,7 +20,10 @@ SPEC = {
                   "responder's certificate does not list the address the initiator was trying to reach, the main hostmap is unchanged, "
                   "nothing is logged as completed, the pending handshake is dropped and restarted with the sender's underlay address "
                   "blocked, and the only packet sent is a close-tunnel to the host that answered.",
-    "level_note": "Modelled, not verified: Noise and certificate verification sit above the model (an operation is a message that already "
+    "level_note": "A 'completed handshake' on the responder side of Noise IX is a stage 1 that passed certificate verification; the "
+                  "initiator has not yet proved possession of its key then (known finding F27, see C05/C10): a tunnel installed from a "
+                  "replayed or altered stage 1 is still bound to the genuine certificate's addresses, which is what C09 states. "
+                  "Modelled, not verified: Noise and certificate verification sit above the model (an operation is a message that already "
                   "passed handshake.Machine with a verified certificate; that the certificate addresses handed to the manager are those of "
                   "the authenticated peer is C05/C01); relayed deliveries, the remote allow list and lighthouse notifications are outside "
                   "the model; the blocked-remote list is modelled per pending handshake (the harness gives each fresh handshake its own "
